@@ -54,3 +54,13 @@ Definition ipc_region := option region.
 Definition ipc_from_bytes (w : world) (bytes : list Z) : world * ipc_region * list call :=
   match bytes with [] => (w, None, []) | _ => let '(w', r, cs) := from_bytes w bytes in (w', Some r, cs) end.
 Definition ipc_read (w : world) (r : ipc_region) : list Z := match r with Some x => read w x | None => [] end.
+
+(* ---- a mapping that fails (mmap returns MAP_FAILED, e.g. ENOMEM): `assert!(address != MAP_FAILED)` in map_file panics.
+   `ok` is the oracle for the one mmap the operation may issue; None = the operation panicked (nothing was handed out). ---- *)
+Definition guard {X} (ok : bool) (r : world * region * X) : option (world * region * X) :=
+  let '(_, reg, _) := r in if r_mapped reg && negb ok then None else Some r.
+Definition create_f (ok : bool) (w : world) (bytes : list Z) := guard ok (create w bytes).
+Definition clone_f (ok : bool) (w : world) (r : region) := guard ok (clone w r).
+Definition receive_f (ok : bool) (w : world) (r : region) := guard ok (receive w r).
+(* what the failing-mmap scenario must show for a region of `len` bytes: a panic, unless nothing is mapped at all *)
+Definition mmapfail_panics (len : Z) : bool := negb (len =? 0).
